@@ -1590,13 +1590,18 @@ def check_C10(cx):
         for posn in (0, 1, 3):
             body = good[:posn] + [bt] + good[posn:]
             pre = b"\n".join(good[:posn])
-            for mode in ("A", "K", "C"):
+            # (a trailing d: with the debug listing switched on, asm_set_debug — it may print, it must not change what is accepted)
+            for mode in ("A", "K", "C", "Ad", "Kd", "Cd"):
+                if mode.endswith("d") and (len(hists) + posn) % 2:
+                    continue
                 h = ["N 0 200 cc"]
-                if mode == "K":
+                if mode[0] == "K":
                     h.append("K 0 8")
-                call = (lambda x: "C 0 8 %s 1" % cases.hexs(x)) if mode == "C" else (lambda x: "A 0 %s" % cases.hexs(x))
+                if mode.endswith("d"):
+                    h.append("V 0 1")
+                call = (lambda x: "C 0 8 %s 1" % cases.hexs(x)) if mode[0] == "C" else (lambda x: "A 0 %s" % cases.hexs(x))
                 h += [call(b"\n".join(body)), "G 0", "D 0 0 200", "F 0", "N 0 200 cc"]
-                if mode == "K":
+                if mode[0] == "K":
                     h.append("K 0 8")
                 h += [call(pre), "D 0 0 200", "F 0"]
                 hists.append(h)
@@ -1608,7 +1613,7 @@ def check_C10(cx):
         pos += len(h)
         if len(o) < len(h):
             break
-        k = 1 if m[3] == "K" else 0
+        k = (1 if m[3][0] == "K" else 0) + (1 if m[3].endswith("d") else 0)
         rc = o[1 + k].split()[0]
         dump_bad, dump_pre = o[3 + k], o[-2]
         if (rc != "1" or dump_bad != dump_pre) and nviol < 10:
@@ -1724,9 +1729,45 @@ def check_C09(cx):
             for lead in (0, 1, 4):
                 prog = b"\n".join([b"add rax, 1"] * lead + [longs[(nbuf + c) % 3], longs[(nbuf + lead) % 3]])
                 hists.append(["N 0 %d cc" % nbuf, "K 0 %d" % c, "A 0 %s" % cases.hexs(prog), "G 0", "M 0", "F 0"])
+    # the debug listing switched on (asm_set_debug): its printers see every instruction, also the longest ones the library emits
+    # (16 and 17 bytes: a scaled index with disp32 behind 32-bit address registers next to an immediate that is not cut to 32 bits)
+    longest = [b"add qword [rax+r9*8+0x11223344], 0x1122334455667788", b"add qword [eax+r9d*8+0x11223344], 0x1122334455667788",
+               b"test qword [r8d+r9d*8+0x11223344], 0x1122334455667788", b"imul r10, [eax+r9d*8+0x11223344], 0x1122334455667788",
+               b"nop11 word -1", b"mov qword [r8d+r9d*8+0x12345678], 0x12345678", b"vpaddb ymm9, ymm10, [r8d+r9d*8+0x12345678]"]
+    for hi in range(0, len(hists), 3):
+        if hists[hi] and hists[hi][0].startswith("N 0 "):
+            hists[hi] = [hists[hi][0], "V 0 1"] + hists[hi][1:]
+    for t in longest:
+        prog = b"nop\n" + t + b"\nret"
+        hists.append(["N 0 400 cc", "V 0 1", "A 0 %s" % cases.hexs(prog), "G 0", "C 0 8 %s 1" % cases.hexs(prog), "K 0 16", "O 0 9",
+                      "A 0 %s" % cases.hexs(prog), "G 0", "M 0", "F 0"])
+        hists.append(["N 0 -", "V 0 1", "A 0 %s" % cases.hexs(prog * 3), "G 0", "F 0"])
     ops2, out2 = tie_api_mod_lf(cx, impl, hists, "C09 API histories under ASan+UBSan with guard regions")
     for b in guard_violations(ops2, out2):
         cx.violations.append({"kind": "guard", **b})
+    # arbitrary text through the FILE entry points: sizes at and around whole pages (a reader that maps or blocks the file has its
+    # corner there), valid programs and garbage, plain and counting
+    ftmp = os.path.join(alv.CACHE, "c09files_%d" % os.getpid())
+    os.makedirs(ftmp, exist_ok=True)
+    page = os.sysconf("SC_PAGE_SIZE")
+    fh = []
+    for fi, size in enumerate([0, 1, 3, page - 1, page, page + 1, 2 * page - 1, 2 * page, 2 * page + 1, 3 * page, 4 * page, 16 * page]):
+        for kind in ("nops", "garbage", "longline"):
+            if kind == "nops":
+                content = (b"nop\n" * (size // 4 + 1))[:size]
+            elif kind == "garbage":
+                content = bytes(r.choice(b"movraxb[]+-*,0x19 \n\t;:%\x7f\xff") for _ in range(size))
+            else:
+                content = (b"ret ;" + b"c" * size)[:size]
+            content = bytes(x for x in content if x != 0)
+            path = os.path.join(ftmp, "f%d_%s" % (fi, kind))
+            open(path, "wb").write(content)
+            fh.append(["N 0 -", ("R 0 %s %s" % (path, cases.hexs(content) or "-")) if fi % 2 == 0 else ("U 0 4 %s %s 1" % (path, cases.hexs(content) or "-")), "G 0", "F 0"])
+    try:
+        tie_api_mod_lf(cx, impl, fh, "C09 files of whole-page sizes through the file entry points under ASan+UBSan")
+    finally:
+        import shutil
+        shutil.rmtree(ftmp, ignore_errors=True)
     if cx.tier == "thorough":
         # uninitialised reads: valgrind memcheck over a sample of the stream (plain build)
         plain = build_impl(cx, flavour="plain")
@@ -3325,12 +3366,26 @@ def check_C20(cx):
     cx.oblige("model ran %d asmline invocations" % len(ops), rc == 0 and len(mout) == len(ops), merr[-300:])
     if rc != 0 or len(mout) != len(ops):
         return finish(cx, "")
+    # what asmline writes to stdout, character by character, against the model of the printers (AL.Impl.cliStdout: the -p listing per
+    # instruction with a row break in front of the eighth byte, the chunked dump with `|`, the -b report line); -r runs and usage errors
+    # (usage text) are left out
+    rc_o, mstd, merr_o = alv.run_driver(alv.driver_path(), ["CO " + op.split(" ", 1)[1].rsplit(" ", 1)[0] for op in ops])
+    cx.oblige("model printed the stdout of %d asmline invocations" % len(ops), rc_o == 0 and len(mstd) == len(ops), merr_o[-300:])
+    if rc_o != 0 or len(mstd) != len(ops):
+        return finish(cx, "")
     mism = []
     seen_by_key = {}
-    for (pi, toks, stdin), op, (xrc, so, fb, err), mo in zip(cases_, ops, obs, mout):
+    nstdout = 0
+    for (pi, toks, stdin), op, (xrc, so, fb, err), mo, ms in zip(cases_, ops, obs, mout, mstd):
         mexit, moff, mcode, mcount = mo.split()
         tag = {"program": progs[pi][:200].decode("latin1"), "flags": toks, "stdin": stdin}
         usage = mexit == "1" and moff == "0" and any(t in ("c=1", "b=0", "o.") for t in toks)
+        if not usage and "r" not in toks and 0 <= xrc < 128 and "AddressSanitizer" not in err:
+            nstdout += 1
+            want_so = "" if ms == "-" else bytes.fromhex(ms).decode("latin1")
+            if so != want_so:
+                k_ = next((i for i in range(min(len(so), len(want_so))) if so[i] != want_so[i]), min(len(so), len(want_so)))
+                mism.append({**tag, "what": "stdout", "first_difference_at": k_, "asmline": so[max(0, k_ - 40):k_ + 60], "model": want_so[max(0, k_ - 40):k_ + 60]})
         # correspondence with the model: exit status, binary file, count
         if str(xrc) != mexit:
             mism.append({**tag, "what": "exit status", "asmline": xrc, "model": mexit, "stderr": err})
@@ -3377,7 +3432,7 @@ def check_C20(cx):
             cx.violations.append({"kind": "cli", **tag, "exit": xrc, "stdout": so[-600:], "file": fb, "library_bytes": mcode, "what": bad})
     for m in mism[:10]:
         cx.broken.append({"correspondence": "C20 asmline vs model", **m})
-    cx.oblige("asmline agrees with the model (exit status, binary files, counts) on %d invocations" % len(ops), not mism, json.dumps(mism[:3])[:1500])
+    cx.oblige("asmline agrees with the model (exit status, binary files, counts, and stdout character by character on %d of them) on %d invocations" % (nstdout, len(ops)), not mism, json.dumps(mism[:3])[:1500])
     import shutil
     shutil.rmtree(tmp, ignore_errors=True)
     cx.count(len(ops), [])
